@@ -1,4 +1,5 @@
 //! further case kinds, one module per family
+mod expand;
 pub fn run_case(kind: &str, fields: Vec<String>) -> Vec<String> {
     match kind {
         // the REPL's private completeness test, through the ruschm_verif hook
@@ -7,6 +8,7 @@ pub fn run_case(kind: &str, fields: Vec<String>) -> Vec<String> {
         } else {
             "open".to_string()
         }],
+        "expand" => crate::on_fresh_thread(move || expand::run(&fields)),
         _ => vec![format!("X unknown-kind {}", kind)],
     }
 }
